@@ -196,6 +196,7 @@ struct DeserOpts {
   int nestingLimit = -1;             // -1: default
   bool hasFilter = false;
   ArduinoJson::JsonVariantConst filter;
+  ArduinoJson::JsonDocument* filterDoc = nullptr;  // when set: Filter(JsonDocument&) (shrinks its argument)
   bool filterFirst = true;           // order of the two options
   std::vector<size_t> chunks;        // istream chunking
   size_t shortReadAt = SIZE_MAX;     // custom / Arduino stream: one short readBytes
@@ -209,6 +210,14 @@ inline std::string visibleBytes(RK k, const std::string& bytes) {
   return z == std::string::npos ? bytes : bytes.substr(0, z);
 }
 
+inline ArduinoJson::DeserializationOption::Filter mkFilter(const DeserOpts& o) {
+#if ARDUINOJSON_AUTO_SHRINK
+  if (o.filterDoc)
+    return ArduinoJson::DeserializationOption::Filter(*o.filterDoc);
+#endif
+  return ArduinoJson::DeserializationOption::Filter(o.filter);
+}
+
 template <typename TDst, typename TInput>
 ArduinoJson::DeserializationError callDeser(const DeserOpts& o, TDst&& dst, TInput&& in) {
   using namespace ArduinoJson;
@@ -216,19 +225,19 @@ ArduinoJson::DeserializationError callDeser(const DeserOpts& o, TDst&& dst, TInp
   using DeserializationOption::NestingLimit;
   if (o.msgpack) {
     if (o.hasFilter && o.nestingLimit >= 0)
-      return o.filterFirst ? deserializeMsgPack(dst, in, Filter(o.filter), NestingLimit(uint8_t(o.nestingLimit)))
-                           : deserializeMsgPack(dst, in, NestingLimit(uint8_t(o.nestingLimit)), Filter(o.filter));
+      return o.filterFirst ? deserializeMsgPack(dst, in, mkFilter(o), NestingLimit(uint8_t(o.nestingLimit)))
+                           : deserializeMsgPack(dst, in, NestingLimit(uint8_t(o.nestingLimit)), mkFilter(o));
     if (o.hasFilter)
-      return deserializeMsgPack(dst, in, Filter(o.filter));
+      return deserializeMsgPack(dst, in, mkFilter(o));
     if (o.nestingLimit >= 0)
       return deserializeMsgPack(dst, in, NestingLimit(uint8_t(o.nestingLimit)));
     return deserializeMsgPack(dst, in);
   }
   if (o.hasFilter && o.nestingLimit >= 0)
-    return o.filterFirst ? deserializeJson(dst, in, Filter(o.filter), NestingLimit(uint8_t(o.nestingLimit)))
-                         : deserializeJson(dst, in, NestingLimit(uint8_t(o.nestingLimit)), Filter(o.filter));
+    return o.filterFirst ? deserializeJson(dst, in, mkFilter(o), NestingLimit(uint8_t(o.nestingLimit)))
+                         : deserializeJson(dst, in, NestingLimit(uint8_t(o.nestingLimit)), mkFilter(o));
   if (o.hasFilter)
-    return deserializeJson(dst, in, Filter(o.filter));
+    return deserializeJson(dst, in, mkFilter(o));
   if (o.nestingLimit >= 0)
     return deserializeJson(dst, in, NestingLimit(uint8_t(o.nestingLimit)));
   return deserializeJson(dst, in);
@@ -241,19 +250,19 @@ ArduinoJson::DeserializationError callDeserN(const DeserOpts& o, TDst&& dst, TCh
   using DeserializationOption::NestingLimit;
   if (o.msgpack) {
     if (o.hasFilter && o.nestingLimit >= 0)
-      return o.filterFirst ? deserializeMsgPack(dst, in, n, Filter(o.filter), NestingLimit(uint8_t(o.nestingLimit)))
-                           : deserializeMsgPack(dst, in, n, NestingLimit(uint8_t(o.nestingLimit)), Filter(o.filter));
+      return o.filterFirst ? deserializeMsgPack(dst, in, n, mkFilter(o), NestingLimit(uint8_t(o.nestingLimit)))
+                           : deserializeMsgPack(dst, in, n, NestingLimit(uint8_t(o.nestingLimit)), mkFilter(o));
     if (o.hasFilter)
-      return deserializeMsgPack(dst, in, n, Filter(o.filter));
+      return deserializeMsgPack(dst, in, n, mkFilter(o));
     if (o.nestingLimit >= 0)
       return deserializeMsgPack(dst, in, n, NestingLimit(uint8_t(o.nestingLimit)));
     return deserializeMsgPack(dst, in, n);
   }
   if (o.hasFilter && o.nestingLimit >= 0)
-    return o.filterFirst ? deserializeJson(dst, in, n, Filter(o.filter), NestingLimit(uint8_t(o.nestingLimit)))
-                         : deserializeJson(dst, in, n, NestingLimit(uint8_t(o.nestingLimit)), Filter(o.filter));
+    return o.filterFirst ? deserializeJson(dst, in, n, mkFilter(o), NestingLimit(uint8_t(o.nestingLimit)))
+                         : deserializeJson(dst, in, n, NestingLimit(uint8_t(o.nestingLimit)), mkFilter(o));
   if (o.hasFilter)
-    return deserializeJson(dst, in, n, Filter(o.filter));
+    return deserializeJson(dst, in, n, mkFilter(o));
   if (o.nestingLimit >= 0)
     return deserializeJson(dst, in, n, NestingLimit(uint8_t(o.nestingLimit)));
   return deserializeJson(dst, in, n);
